@@ -16,7 +16,7 @@ func init() {
 		Title: "the matcher never uses a path head computed before the path was advanced",
 		Text: "In genericMatches every local derived from an element of the path slice (p0 := extract(path[0])) is recomputed after every reassignment of the slice before it is used again: " +
 			"the $set / $delete segments are skipped by advancing the slice, and a head computed before the skip names the operator, not the field, so nothing below an operator ever matches.",
-		Props: []string{"C07"},
+		Props: []string{"C07", "C11"},
 		Floor: map[string]int{"v2": 1, "root": 1},
 		Run:   runR078,
 	})
@@ -25,7 +25,7 @@ func init() {
 		Title: "the matcher answers 'not excluded' only after consulting both the wildcard and the literal entry",
 		Text: "In genericMatches every return that can yield false has, on every path to it, indexed the spec with the WildCard constant and with the path head (calls of a local closure are inlined; `a || b` yields false only after both operands ran). " +
 			"Exempt: returns before any lookup that are guarded by a length test of a parameter (empty spec, operator as last segment). A spec may hold `*/x` next to `k/y`, so an answer taken from one entry alone is wrong for some spec.",
-		Props: []string{"C07"},
+		Props: []string{"C07", "C11"},
 		Floor: map[string]int{"v2": 1, "root": 1},
 		Run:   runR079,
 	})
@@ -175,12 +175,22 @@ func runR079(c *core.Ctx) {
 		c.Unknown(rel, "genericMatches", "matcher shape", token.NoPos, "parameters (spec, path, …) not found")
 		return
 	}
+	analyseMatcherAnswers(c, inf, fd, specObj, map[*ast.FuncDecl]bool{}, true)
+}
+
+// analyseMatcherAnswers decides R07.9 for one function of the matcher; helpers that receive the spec are analysed the same
+// way and, when they pass, a `return helper(spec, …)` counts as having consulted both entries.
+func analyseMatcherAnswers(c *core.Ctx, inf *types.Info, fd *ast.FuncDecl, specObj types.Object, visiting map[*ast.FuncDecl]bool, report bool) bool {
+	const rel = "restlicodec"
+	visiting[fd] = true
+	defer delete(visiting, fd)
 	wildObj := mustObj(c, rel, "WildCard")
 	closures := localClosures(inf, fd)
 	const (
 		wild = 1
 		lit  = 2
 	)
+	_ = rel
 	classifyKey := func(e ast.Expr, bind map[types.Object]ast.Expr) int {
 		e = core.Unparen(e)
 		if o := core.ObjOf(inf, e); o != nil {
@@ -210,6 +220,22 @@ func runR079(c *core.Ctx) {
 					got |= classifyKey(y.Index, bind)
 				}
 			case *ast.CallExpr:
+				// a helper of the matcher that is handed the spec: both entries count as consulted when the helper itself passes
+				if hf := core.Callee(inf, y); hf != nil && hf.Pkg() != nil && c.M.InModule(hf.Pkg()) {
+					if hd := c.M.Decl(hf.Origin()); hd != nil && hd != fd && !visiting[hd] && hd.Type.Params != nil {
+						k := 0
+						for _, fl := range hd.Type.Params.List {
+							for _, nm := range fl.Names {
+								if k < len(y.Args) && core.ObjOf(inf, y.Args[k]) == specObj {
+									if analyseMatcherAnswers(c, inf, hd, inf.Defs[nm], visiting, report) {
+										got |= wild | lit
+									}
+								}
+								k++
+							}
+						}
+					}
+				}
 				if id, ok := core.Unparen(y.Fun).(*ast.Ident); ok {
 					if flit := closures[inf.Uses[id]]; flit != nil && depth < 3 {
 						// inline: only lookups in the closure's leading statement are certain to run
@@ -311,10 +337,16 @@ func runR079(c *core.Ctx) {
 		}
 		return true
 	})
+	name := core.DeclName(fd)
 	if len(undecided) > 0 {
-		c.Unknown(rel, "genericMatches", "negative answers consult both the wildcard and the literal entry", fd.Pos(), strings.Join(dedupe(undecided), "; "))
-		return
+		if report {
+			c.Unknown(rel, name, "negative answers consult both the wildcard and the literal entry", fd.Pos(), strings.Join(dedupe(undecided), "; "))
+		}
+		return false
 	}
-	c.Check(len(problems) == 0 && returns > 0, rel, "genericMatches", "negative answers consult both the wildcard and the literal entry", fd.Pos(),
-		fmt.Sprintf("%d returns, %d of them length-guarded early exits", returns, exempt), strings.Join(dedupe(problems), "; "))
+	if report {
+		c.Check(len(problems) == 0 && returns > 0, rel, name, "negative answers consult both the wildcard and the literal entry", fd.Pos(),
+			fmt.Sprintf("%d returns, %d of them length-guarded early exits", returns, exempt), strings.Join(dedupe(problems), "; "))
+	}
+	return len(problems) == 0 && returns > 0
 }
